@@ -105,18 +105,18 @@ example : handle { inMulti := true } db0 2000 [b "multi"]
 example : (handle { inMulti := true } db0 2000 [b "INCR", b "k1"]).2
     = (db0, [.str (b "QUEUED")]) := by decide +kernel
 
-/-- D12: EXEC announces two replies, the first queued command fails, nothing else is written,
-the tables are rolled back and the queue is dropped (`MULTI; INCR k2; INCR k1; EXEC`) -/
+/-- D12 (repaired): EXEC announces two replies, the first queued command fails, the second still runs and
+writes its reply, the tables are rolled back and the queue is dropped (`MULTI; INCR k2; INCR k1; EXEC`) -/
 example : handle { inMulti := true, cmds := queued [[b "INCR", b "k2"], [b "INCR", b "k1"]] } db0 2000 [b "EXEC"]
-    = ({}, db0, [.arrayHdr 2, .err (b "key type mismatch (incr)")]) := by decide +kernel
+    = ({}, db0, [.arrayHdr 2, .err (b "key type mismatch (incr)"), .int 8]) := by decide +kernel
 
-/-- D12, atomicity side: an effect made before the failing command is rolled back too -/
+/-- atomicity side: an effect made before the failing command is rolled back too -/
 example : (handle { inMulti := true, cmds := queued [[b "INCR", b "k1"], [b "INCR", b "k2"]] } db0 2000 [b "EXEC"])
     = ({}, db0, [.arrayHdr 2, .int 8, .err (b "key type mismatch (incr)")]) := by decide +kernel
 
-/-- D12 for an unknown command inside the block -/
+/-- an unknown command inside the block: its error, then the reply of the next command; rolled back -/
 example : (handle { inMulti := true, cmds := queued [[b "FOO"], [b "INCR", b "k1"]] } db0 2000 [b "EXEC"])
-    = ({}, db0, [.arrayHdr 2, .err (b "ERR unknown command (foo)")]) := by decide +kernel
+    = ({}, db0, [.arrayHdr 2, .err (b "ERR unknown command (foo)"), .int 8]) := by decide +kernel
 
 /-- a block without failure: both replies, effects kept -/
 example : (handle { inMulti := true, cmds := queued [[b "INCR", b "k1"], [b "LLEN", b "k2"]] } db0 2000 [b "EXEC"]).2.2
